@@ -227,7 +227,7 @@ def run(tier):
     prelude(rep, PID)
     rep.cov["trusted_base"] = vlib.TRUSTED_BASE_COMMON + [
         "checks/rle_ref.py: independent Python transcription of the Parquet RLE/bit-packing layout (oracle for the layout and generator of legal streams)",
-        "modelled, not verified: src/encoding/rle.c (encoder, streaming decoder, decode_all), src/core/bitpack.c (group pack/unpack by closed form - the general 9..32-bit loops are tied by the exhaustive single-bit sweep, not by a loop refinement proof)",
+        "modelled, not verified: src/encoding/rle.c (encoder, streaming decoder, decode_all), src/core/bitpack.c (the group loops are mirrored statement by statement in Enc/BitpackLoopModel.v and proved equal to the closed form used by the other theorems)",
     ]
     rep.cov["rule"] = ("RLE: every sequence over {0,1} up to length 12 (thorough 16) at width 1 and over {0,1,2} up to length 8 (10) at width 2; "
                        "structured run/literal mixes with run lengths around 7/8/9/15/16/17/63/64/65 at all widths 0..32; long runs; every "
@@ -241,6 +241,11 @@ def run(tier):
         rep.tie_broken("harness does not build against the current tree: " + str(e)[:500])
         return rep.finish()
     check_bitpack(rep, tier, rng, drv, run_)
+    try:
+        import c11_bitloop
+        c11_bitloop.check_bitloop(rep, tier, rng)      # the C-shaped loop model vs the implementation
+    except ImportError:
+        pass
     check_rle(rep, tier, rng, drv, run_)
     try:
         import c11_enc2
